@@ -319,7 +319,7 @@ func runHist(h hist) (res result) {
 				}
 			}
 			f := func(extra ...any) map[string]string {
-				m := vf.F("session", s.Kind, "addpath", apStr(s), "after", o.K)
+				m := vf.F("session", s.Kind, "addpath", apStr(s))
 				for j := 0; j+1 < len(extra); j += 2 {
 					m[fmt.Sprint(extra[j])] = fmt.Sprint(extra[j+1])
 				}
@@ -443,7 +443,7 @@ func runHist(h hist) (res result) {
 					id := id
 					if got[id] == 0 {
 						disc(dk("missing", id), "missing", func() map[string]string {
-							return f("source", rig.SourceKind(want[id].a), "blocked_sibling", blockedSibling, "blocked_earlier", blockedBefore, "tie", hasTie(h, pi, id))
+							return f("blocked_sibling", blockedSibling, "blocked_earlier", blockedBefore, "tie", hasTie(h, pi, id))
 						},
 							func() string { return fmt.Sprintf("path %d is selected and admitted but absent: %s", id, ctx()) })
 					}
